@@ -77,15 +77,17 @@ class Watch:
 
     def sd(self, owner, items):
         s = owner._vals_.get(self.attr)
-        if s is None: return {'items': [], 'fully': False, 'count': None, 'added': [], 'removed': [], 'absent': []}
+        c = core.local.db2cache.get(self.db)
+        dirty = bool(c is not None and c.is_alive and owner in (c.modified_collections.get(self.attr) or ()))
+        if s is None: return {'items': [], 'fully': False, 'count': None, 'added': [], 'removed': [], 'absent': [], 'dirty': dirty}
         idx = lambda xs: sorted(x._pkval_ for x in (xs or ()))
         return {'items': idx(s), 'fully': bool(s.is_fully_loaded), 'count': s.count, 'added': idx(s.added), 'removed': idx(s.removed),
-                'absent': idx(s.absent)}
+                'absent': idx(s.absent), 'dirty': dirty}
 
 
 def norm_sd(d):
     return {'items': sorted(d['items']), 'fully': bool(d['fully']), 'count': d['count'], 'added': sorted(d['added']), 'removed': sorted(d['removed']),
-            'absent': sorted(d.get('absent', []))}
+            'absent': sorted(d.get('absent', [])), 'dirty': bool(d.get('dirty', False))}
 
 
 def watch_history(ctx, rng, kind, owning, cfg, nops, given=None):
@@ -163,10 +165,10 @@ def watch_history(ctx, rng, kind, owning, cfg, nops, given=None):
                         had_sd = owner._vals_.get(w.attr) is not None
                         wasmod = cache is not None and cache.modified
                         ret = int(it in owner.coll); exp = int(x in L)
+                        if flushed_since(wasmod): pre.append({'k': 'flush'}); ctx.count('setdata:implicit-flush:contains')
                         if kind == 'm2m':
                             # the model's `contains` does its own Set.load(obj, {x}); `containsRev`: no SetData, the item's fully loaded side answers
                             mop = {'k': 'contains' if (had_sd or owner._vals_.get(w.attr) is not None) else 'containsRev', 'x': x}
-                            if flushed_since(wasmod): pre.append({'k': 'flush'}); ctx.count('setdata:implicit-flush:contains')
                         ctx.count('setdata:contains:%s:%s' % (kind, bool(ret)))
                         if script is None and rng.random() < 0.7:
                             # the same test again after the membership was changed, from either side, with nothing flushed in between
@@ -186,7 +188,7 @@ def watch_history(ctx, rng, kind, owning, cfg, nops, given=None):
                 # loads the real call did on the way: a full load, or single items that are in the collection
                 adds = mop is not None and mop['k'] in ('revAdd', 'add')
                 takes = mop is not None and mop['k'] in ('revRemove', 'remove')
-                if k == 'contains': pass
+                if k == 'contains' and kind == 'm2m': pass
                 elif after['fully'] and not before['fully'] and k != 'len':
                     pre.append({'k': 'loadAll'})
                 else:
